@@ -38,7 +38,7 @@ func (e *Exec) verifyFunction(fn *ssa.Function, sp *FuncSpec) {
 	e.entry = st.clone()
 	e.entryVars = vars
 	name := fnName(fn)
-	env := &specEnv{st: st, old: e.entry, vars: vars, oldVars: vars, pkg: pkgOf(fn)}
+	env := &specEnv{into: st, st: st, old: e.entry, vars: vars, oldVars: vars, pkg: pkgOf(fn)}
 	for _, rq := range sp.Requires {
 		g, err := e.evalSpecBool(rq.Expr, env)
 		if err != nil {
@@ -69,7 +69,7 @@ func (e *Exec) verifyFunction(fn *ssa.Function, sp *FuncSpec) {
 				rv[fv.Name()] = e.load(st2, a)
 			}
 		}
-		env := &specEnv{st: st2, old: e.entry, vars: rv, oldVars: vars, pkg: pkgOf(fn), fr: nil}
+		env := &specEnv{into: st2, st: st2, old: e.entry, vars: rv, oldVars: vars, pkg: pkgOf(fn), fr: nil}
 		for _, en := range sp.Ensures {
 			g, err := e.evalSpecBool(en.Expr, env)
 			if err != nil {
@@ -78,7 +78,21 @@ func (e *Exec) verifyFunction(fn *ssa.Function, sp *FuncSpec) {
 			}
 			e.oblige(st2, name+"/post:"+en.Label, en.Props, g, en.Src)
 		}
+		if sp.Functional != "" {
+			// the result is named by an uninterpreted function of the arguments: sound only if it
+			// depends on nothing else. Structural check: no read of pre-existing heap, no impure callee.
+			e.oblige(st2, name+"/functional", sp.Props, BoolLit(len(st2.impure) == 0), "result must be a function of the arguments only: "+strings.Join(st2.impure, "; "))
+			var as []Term
+			for _, a := range args {
+				as = append(as, a.L...)
+			}
+			for k := range all.L {
+				// the defining equations, usable by later obligations on this path
+				st2.pc = append(st2.pc, Eq(all.L[k], e.ctx.uf(functionalName(sp.Functional, k, len(all.L)), all.L[k].Sort, as...)))
+			}
+		}
 		e.frameCheck(st2, name, sp)
+		e.effectsDeclared(st2, name, sp)
 		e.exitHook(st2, name, sp, false)
 	}, func(st2 *State, v SV) {
 		e.curPath = strings.Join(st2.trace, ",")
@@ -90,6 +104,24 @@ func (e *Exec) verifyFunction(fn *ssa.Function, sp *FuncSpec) {
 	if nret == 0 && len(e.errs) == 0 {
 		e.errorf("%s: no path reaches a return", name)
 	}
+}
+
+// effectsDeclared: every event on the path has an effect class the contract declares.
+func (e *Exec) effectsDeclared(st *State, name string, sp *FuncSpec) {
+	declared := strings.Fields(sp.effects())
+	var bad []string
+	for _, ev := range st.events {
+		if ev.Kind != "extern" && ev.Kind != "call" {
+			continue
+		}
+		for _, k := range strings.Fields(ev.Mode) {
+			if !hasProp(declared, k) {
+				bad = appendUnique(bad, ev.Callee+" is "+k)
+			}
+		}
+	}
+	e.oblige(st, name+"/effects-declared", []string{"C14", "C17", "C18"}, BoolLit(len(bad) == 0),
+		fmt.Sprintf("contract declares effect classes %v; path performs: %s", declared, strings.Join(bad, "; ")))
 }
 
 func (e *Exec) exitHook(st *State, name string, sp *FuncSpec, panicked bool) {
@@ -145,7 +177,7 @@ func (e *Exec) initGlobals(st *State, fn *ssa.Function) {
 		return
 	}
 	saveObls, saveErrs, saveTop := e.obls, e.errs, e.top
-	fr := &frame{fn: init, loops: map[*ssa.BasicBlock]*loopInfo{}, names: map[string]ssa.Value{}}
+	fr := &frame{fn: init, loops: map[*ssa.BasicBlock]*loopInfo{}, names: map[string][]dbgRef{}}
 	fr.ret = func(*State, []SV) {}
 	b := init.Blocks[1]
 	for _, in := range b.Instrs {
@@ -315,6 +347,22 @@ func (o *Obligation) Query(withModel bool) string {
 	sort.Ints(ids)
 	var b strings.Builder
 	b.WriteString(prelude)
+	usesAt := strings.Contains(o.Goal.S, "(at ")
+	for _, p := range o.Pc {
+		if usesAt {
+			break
+		}
+		usesAt = strings.Contains(p.S, "(at ")
+	}
+	for _, i := range ids {
+		if usesAt {
+			break
+		}
+		usesAt = strings.Contains(c.decls[i], "(at ")
+	}
+	if usesAt {
+		b.WriteString(atDecl)
+	}
 	fmt.Fprintf(&b, "; obligation %s\n", o.Name)
 	if o.Note != "" {
 		fmt.Fprintf(&b, "; %s\n", strings.ReplaceAll(o.Note, "\n", " "))
